@@ -290,6 +290,9 @@ def text_job(n, shard):
                 lo, hi, mult = rvref.C_IMM_RANGE[mn]
                 f['imm'] = rnd.choice([lo - mult, lo, lo + mult, hi - mult, hi, hi + mult, hi + 2 * mult, 0, mult, -mult, lo - 1, hi + 1,
                                         rnd.randrange(lo - 3 * (hi - lo + 1), hi + 3 * (hi - lo + 1))])
+                if rnd.randrange(6) == 0:
+                    # a legal value plus a multiple of 2^32 (2^64): equal to it in 32-bit (64-bit) arithmetic, not representable
+                    f['imm'] = rnd.choice([lo, hi, mult, lo + mult, hi - mult]) + rnd.choice([1 << 32, -(1 << 32), 1 << 33, 1 << 64, -(1 << 64)])
             cls = classify16(mn, f)
             exp = None
             if cls != REFUSE:
@@ -303,6 +306,11 @@ def text_job(n, shard):
             others = legal_others(mn, field, rnd.randrange(3))
             w = window32(mn, field)
             v = rnd.choice(w)
+            if rnd.randrange(6) == 0:
+                legal = [x for x in (w[len(w) // 2], w[len(w) // 2 + 1], 0, 1, 2, 4) if classify32(mn, field, x) == ACCEPT]
+                if legal:
+                    # a legal value plus a multiple of 2^32 (2^64): equal to it in 32-bit (64-bit) arithmetic, not representable
+                    v = rnd.choice(legal) + rnd.choice([1 << 32, -(1 << 32), 1 << 33, 1 << 64, -(1 << 64)])
             f = dict(others)
             f[field] = v
             cls = classify32(mn, field, v)
